@@ -233,3 +233,97 @@ def _(u):
 @unit("decoding.process_logits.filtered.k0", file=DEC, func="process_logits", props=("C10", "C02"))
 def _(u):
     _process_logits_filtered(u, 0)
+
+
+# ---------------------------------------------------------------------------------------------
+# C10: top-p (nucleus) filtering removes a prefix of the ascending order, never the row maximum, and leaves the rest untouched
+# ---------------------------------------------------------------------------------------------
+class capture_sort_fn:
+    def __init__(self):
+        self.results = []
+
+    def __enter__(self):
+        from tvc.methods import TF, TM
+
+        self.orig = (TM["sort"], TF["sort"])
+
+        def wrapped(t, *a, **kw):
+            r = self.orig[1](t, *a, **kw)
+            self.results.append(r)
+            return r
+
+        TM["sort"] = TF["sort"] = wrapped
+        return self
+
+    def __exit__(self, *a):
+        from tvc.methods import TF, TM
+
+        TM["sort"], TF["sort"] = self.orig
+
+
+@unit("decoding.top_p_filter", file=DEC, func="modify_logits_for_top_p_filtering", props=("C10",))
+def _(u):
+    from tvc.unit import prefix_sum_step
+
+    B = u.dim("B")
+    N = u.dim("N", 2)
+    logits = u.tensor("logits", (B, N), "f")
+    p = u.scalar("top_p", "f")
+    u.requires(AND(p > 0, p < 1))
+    ops.uses_inf()
+    u.requires(u.forall((B, N), lambda b, j: AND(logits.at(b, j) >= -ops.INF, logits.at(b, j) < ops.INF)))
+    # at least one entry per row is feasible (finite): process_logits is only ever applied to rows with an admissible action
+    u.requires(u.forall((B,), lambda b: u.exists((N,), lambda j: logits.at(b, j) > -ops.INF)))
+    with capture_sort_fn() as cs:
+        out = u.run(DEC, "modify_logits_for_top_p_filtering", logits, p)
+    info = cs.results[0][0].prov[1]
+    S, P, Q = info["S"], info["P"], info["Q"]
+    b, j = u.idx((B,), "b"), u.idx((N,), "j")
+    s1, s2 = u.idx((N,), "s1"), u.idx((N,), "s2")
+    same_tensor(u, "topp.shape", out, (B, N), lambda bb, jj: out.at(bb, jj))
+    u.prove("topp.entries-kept-or-removed", OR(out.at(b, j) == logits.at(b, j), out.at(b, j) == -ops.INF))
+    cums = [r for r in u.ctx.reds.values() if r.label == "cumsum"]
+    for r in cums:
+        prefix_sum_step(u, r, (b, s2), 1)
+        prefix_sum_step(u, r, (b, zint(N) - 1), 1)
+    removed = lambda s: out.at(b, P(zint(b), zint(s))) == -ops.INF           # the entry at ascending position s ends up at -inf
+    from .checkers import sorted_pos_instances, sort_input_bridge
+    sorted_pos_instances(u, cs.results[0], b, [s1, s2, zint(N) - 1], N)      # ground instances of the sort contract at the positions named below
+    for n_, r in enumerate(cums):
+        u.prove(f"lemma.softmax-weight-nonnegative{n_}", r.body((b, s2), (zint(s2),)) >= 0, assume=True)
+    # (the softmax weights are non-negative, so the cumulative probabilities increase along the ascending order:)
+    u.prove("topp.removed-positions-form-a-prefix", IMPL(AND(zint(s1) + 1 == zint(s2), removed(s2), S(zint(b), zint(s2)) > -ops.INF), removed(s1)))
+    # the row maximum (last position of the ascending order) always survives: its cumulative probability is the whole mass 1
+    from tvc.unit import sum_linear_hint
+    from tvc.core import mk as _mk
+    norms = [r for r in u.ctx.reds.values() if r.label == "softmax-norm"]
+    for r, z in zip(cums, norms):
+        H = _mk((B, N), "f", lambda I, r=r: r.app(I), prov=("red", r))
+        Zt = _mk((B,), "f", lambda I, z=z: z.app(I), prov=("red", z))
+        Z = z.app((b,))
+        u.prove("lemma.softmax-norm-positive", Z > 0, assume=True)
+        sum_linear_hint(u, H, (b, zint(N) - 1), [(1 / Z, Zt, (b,))], name="lemma.cumulative-summand-is-weight-over-norm")
+        u.prove("lemma.total-mass-is-one", r.app((b, zint(N) - 1)) == 1, assume=True, algebra_only=True)
+    jm = P(zint(b), zint(N) - 1)
+    sort_input_bridge(u, cs.results[0], B, N)
+    u.prove("topp.a-row-maximum-survives", AND(out.at(b, jm) == logits.at(b, jm), logits.at(b, jm) >= logits.at(b, j), out.at(b, jm) > -ops.INF))
+    # what is removed is exactly the part of the ascending order whose cumulative probability stays within 1 - top_p
+    # (cumulative probability: the code's own prefix-sum reduction on the symbolic pass; on the concrete pass, where sums are
+    # unrolled, the specification softmax / cumsum of the sorted values)
+    if cums:
+        cum_at = lambda s: cums[0].app((b, s))
+    else:
+        from tvc.methods import TM
+        spec = TM["cumsum"](TM["softmax"](cs.results[0][0], -1), -1)
+        cum_at = lambda s: spec.at(b, s)
+    u.prove("topp.removed-iff-cumulative-mass-within-one-minus-p", IMPL(S(zint(b), zint(s2)) > -ops.INF, removed(s2) == (cum_at(s2) <= 1 - p)))
+    u.canary("topp.removes-the-smallest-entry", removed(0))
+
+
+@unit("decoding.top_p_filter.disabled", file=DEC, func="modify_logits_for_top_p_filtering", props=("C10",))
+def _(u):
+    B, N = u.dims("B N")
+    logits = u.tensor("logits", (B, N), "f")
+    for nm, p in (("zero", 0.0), ("one", 1.0)):
+        out = u.run(DEC, "modify_logits_for_top_p_filtering", logits, p)
+        u.prove(f"topp.{nm}.identity", out is logits)
